@@ -26,6 +26,9 @@ HOURLY_PROFILES = {
     "noedge": {"temperature_bin": {"include_edge_bins": False, "edge_bin_rate": None, "edge_bin_percent": None}},
     "adaptive": {"elasticnet": {"adaptive_weights": True, "adaptive_weight_max_iter": 5, "adaptive_weight_tol": 1e-4}},
     "clusters6": {"temporal_cluster": {"n_cluster_upper": 6, "recluster_count": 1}},
+    # supplemental time-series column named in the settings and carried by the data (features not fixed / fixed explicitly)
+    "supp": {"supplemental_time_series_columns": ["occupancy"]},
+    "supp-explicit": {"train_features": ["temperature"], "supplemental_time_series_columns": ["occupancy"]},
 }
 
 
@@ -92,14 +95,16 @@ def daily_reporting_df(rng, tz, start, n, with_observed=True, temp_nan=0.0, obs_
 # one interface over the model families (used by C01, C02, C03, C04, C05, C06)
 # ---------------------------------------------------------------------------------------------------
 class Family:
-    """name in {daily:<profile>, billing, hourly:<profile>[:ghi], caltrack}"""
+    """name in {daily:<profile>, billing, hourly:<profile>[:ghi][:irregular], caltrack}"""
 
     def __init__(self, name):
         self.name = name
         parts = name.split(":")
         self.kind = parts[0]
         self.profile = parts[1] if len(parts) > 1 else ("current" if self.kind == "daily" else "default")
-        self.ghi = len(parts) > 2 and parts[2] == "ghi"
+        self.ghi = "ghi" in parts[2:]
+        self.irregular = "irregular" in parts[2:]            # seed-sensitive load shapes
+        self.occupancy = self.kind == "hourly" and self.profile.startswith("supp")
 
     # ---- classes ------------------------------------------------------------------------------------
     def classes(self):
@@ -131,7 +136,8 @@ class Family:
         if self.kind == "billing":
             tdf, bdf, _ = billing_reads(rng, tz=tz, start=start or "2018-01-01", n_periods=max(3, days // 30), kind=kind, noise=noise)
             return tdf.join(bdf).iloc[:-1]
-        return synth_hourly(tz=tz, start=start or "2018-01-01", days=days, seed=rng, ghi=self.ghi, noise=noise)
+        return synth_hourly(tz=tz, start=start or "2018-01-01", days=days, seed=rng, ghi=self.ghi, noise=noise,
+                            irregular=self.irregular, occupancy=self.occupancy)
 
     def baseline_data(self, df):
         B = self.classes()[1]
@@ -140,7 +146,8 @@ class Family:
     def reporting_frame(self, rng, tz, start, days, with_observed=True, mean=None):
         if self.kind in ("daily", "billing"):
             return daily_reporting_df(rng, tz, start, days, with_observed=with_observed, mean=mean)
-        df = synth_hourly(tz=tz, start=start, days=days, seed=rng, ghi=self.ghi, noise=0.05, mean=mean if mean is not None else 55.0)
+        df = synth_hourly(tz=tz, start=start, days=days, seed=rng, ghi=self.ghi, noise=0.05, mean=mean if mean is not None else 55.0,
+                          irregular=self.irregular, occupancy=self.occupancy)
         if not with_observed:
             df = df.drop(columns=["observed"])
         return df
@@ -167,6 +174,6 @@ class Family:
         return self.classes()[0].from_dict(d)
 
 
-FAMILIES_QUICK = ["daily:current", "daily:legacy", "billing", "hourly:default", "hourly:default:ghi", "caltrack"]
+FAMILIES_QUICK = ["daily:current", "daily:legacy", "billing", "hourly:default", "hourly:default:ghi", "caltrack", "hourly:supp"]
 FAMILIES_ALL = ["daily:" + p for p in DAILY_PROFILES] + ["billing"] + ["hourly:" + p for p in HOURLY_PROFILES] + \
-               ["hourly:default:ghi", "hourly:robust:ghi", "hourly:bins8:ghi"] + ["caltrack"]
+               ["hourly:default:ghi", "hourly:robust:ghi", "hourly:bins8:ghi", "hourly:default:irregular", "hourly:supp:ghi"] + ["caltrack"]
